@@ -1,4 +1,5 @@
 import Rbp.Model.Sha256
+import Rbp.Model.Bech32
 namespace A
 abbrev Bytes := List UInt8
 
@@ -93,30 +94,20 @@ def base58check (p : Bytes) : String := base58 (p ++ (sha256d p).take 4)
 
 /-! Bech32 / Bech32m segwit addresses -/
 def charset : Array Char := "qpzry9x8gf2tvdw0s3jn54khce6mua7l".toList.toArray
-def GEN : Array UInt32 := #[0x3b6a57b2, 0x26508e6d, 0x1ea119fa, 0x3d4233dd, 0x2a1462b3]
-def polymod (vs : List UInt32) : UInt32 :=
-  vs.foldl (fun chk v =>
-    let b := chk >>> 25
-    let c := ((chk &&& 0x1ffffff) <<< 5) ^^^ v
-    (List.range 5).foldl (fun c i => if (b >>> i.toUInt32) &&& 1 == 1 then c ^^^ GEN[i]! else c) c) 1
-def hrpExpand (hrp : String) : List UInt32 :=
-  hrp.toList.map (fun c => (c.toNat / 32).toUInt32) ++ [0] ++ hrp.toList.map (fun c => (c.toNat % 32).toUInt32)
-/-- 8→5 bit regrouping with zero padding -/
-def to5 (bs : Bytes) : List UInt32 :=
-  let bits := bs.flatMap (fun b => (List.range 8).map (fun i => (b.toNat >>> (7 - i)) % 2))
-  let rec go (bits : List Nat) (fuel : Nat) : List UInt32 :=
-    match fuel with
-    | 0 => []
-    | fuel+1 =>
-      if bits.isEmpty then [] else
-      let g := bits.take 5
-      let g := g ++ List.replicate (5 - g.length) 0
-      (g.foldl (fun a b => a * 2 + b) 0).toUInt32 :: go (bits.drop 5) fuel
-  go bits (bits.length + 1)
+def hrpExpand (hrp : String) : List Nat :=
+  hrp.toList.map (fun c => c.toNat / 32) ++ [0] ++ hrp.toList.map (fun c => c.toNat % 32)
+/-- the bits of a byte string, most significant first -/
+def bitsOf (bs : Bytes) : List Bool := bs.flatMap fun b => Bech.bitsN 8 b.toNat
+/-- 8→5 bit regrouping with zero padding of the last group -/
+def to5 (bs : Bytes) : List Nat :=
+  let B := bitsOf bs
+  (Bech.chunks 5 (by omega) (B ++ List.replicate ((5 - B.length % 5) % 5) false)).map Bech.groupVal
+/-- the six checksum values for the values `vs` (hrp expansion ++ data) -/
+def checksum (const : Bech.W) (vs : List Nat) : List Nat :=
+  let pm := Bech.polymod (vs.map (BitVec.ofNat 30) ++ List.replicate 6 0) ^^^ const
+  (List.range 6).map (fun i => ((pm >>> (5 * (5 - i))) &&& 31).toNat)
+def bechConst (ver : Nat) : Bech.W := if ver = 0 then 1 else 0x2bc830a3
 def segwitAddr (hrp : String) (ver : Nat) (prog : Bytes) : String :=
-  let data := ver.toUInt32 :: to5 prog
-  let const : UInt32 := if ver = 0 then 1 else 0x2bc830a3
-  let pm := polymod (hrpExpand hrp ++ data ++ List.replicate 6 0) ^^^ const
-  let chk := (List.range 6).map (fun i => (pm >>> (5 * (5 - i)).toUInt32) &&& 31)
-  hrp ++ "1" ++ String.ofList ((data ++ chk).map (fun v => charset[v.toNat]!))
+  let data := ver :: to5 prog
+  hrp ++ "1" ++ String.ofList ((data ++ checksum (bechConst ver) (hrpExpand hrp ++ data)).map (fun v => charset[v]!))
 end A
